@@ -3,7 +3,6 @@ use crate::il::*;
 use crate::Error;
 use falcon_capstone::capstone;
 use falcon_capstone::capstone_sys::ppc_reg;
-use std::cmp::Ordering;
 
 /// Struct for dealing with x86 registers
 pub struct PpcRegister {
@@ -361,21 +360,14 @@ pub fn rlwinm_(
       zeros. All other bits are set to ones.
     */
 
-    let mask = match mb.cmp(&(me + 1)) {
-        Ordering::Less => {
-            let mb = 32 - mb;
-            let me = 32 - me;
-            let mask = (1 << (mb - me)) - 1;
-            mask << me
-        }
-        Ordering::Equal => 0xffff_ffff,
-        Ordering::Greater => {
-            let mb = 32 - mb;
-            let me = 32 - me;
-            let mask = (1 << (me - mb)) - 1;
-            let mask = mask << mb;
-            mask ^ 0xffff_ffff
-        }
+    // MASK(mb, me): ones from bit mb through bit me, bit 0 being the most
+    // significant; the run wraps around when mb > me.
+    let from_mb: u64 = 0xffff_ffff >> mb;
+    let to_me: u64 = (0xffff_ffff << (31 - me)) & 0xffff_ffff;
+    let mask = if mb <= me {
+        from_mb & to_me
+    } else {
+        from_mb | to_me
     };
 
     let block_index = {
